@@ -191,6 +191,31 @@ def decide(ctx, rule, prog, key, rows, allowed, opaque=(), **kw):
     ctx.instance("D3-BOUNDARY", "%s|%s" % (prog.config, key))
 
 
+def pred_tables(ctx, prog):
+    """TAB-PRED: the three char-boundary predicates (strict on bytes, forgiving on bytes, public on str) against
+    str::is_char_boundary - also run by C07, whose boundary searches stop on the forgiving one"""
+    a = P(2)
+    KS = "konst_kernel::string::"
+    t = boolean
+    R = P(1)
+    RL = Len(R)
+    # predicates (bytes: p1 is &[u8] here)
+    rows = [Row([eq(a, RL)], t(True), name="pos==len"),
+            Row([lt(RL, a)], t(False), name="pos>len"),
+            Row([lt(a, RL), isb(a, R)], t(True), name="pos<len, boundary byte"),
+            Row([lt(a, RL), nb(a, R)], t(False), name="pos<len, continuation byte")]
+    decide(ctx, "TAB-PRED", prog, KS + "__is_char_boundary_bytes", rows, {bclass(a, R)})
+    rows = [Row([le(RL, a)], t(True), name="pos>=len"),
+            Row([lt(a, RL), isb(a, R)], t(True), name="pos<len, boundary byte"),
+            Row([lt(a, RL), nb(a, R)], t(False), name="pos<len, continuation byte")]
+    decide(ctx, "TAB-PRED", prog, KS + "__is_char_boundary_forgiving", rows, {bclass(a, R)})
+    rows = [Row([eq(a, LEN)], t(True), name="pos==len"),
+            Row([lt(LEN, a)], t(False), name="pos>len"),
+            Row([lt(a, LEN), isb(a)], t(True), name="pos<len, boundary byte"),
+            Row([lt(a, LEN), nb(a)], t(False), name="pos<len, continuation byte")]
+    decide(ctx, "TAB-PRED", prog, KS + "is_char_boundary", rows, {bclass(a)})
+
+
 def run(ctx):
     ctx.explanation = ("byte class of the boundary test computed exactly over all 256 bytes; decision tables of the boundary "
                        "predicates, fallible getters and clamping variants compared with str::is_char_boundary / str::get / "
@@ -199,24 +224,7 @@ def run(ctx):
         prog = ctx.program(cfg)
         a, b = P(2), P(3)
         KS = "konst_kernel::string::"
-        # predicates (bytes: p1 is &[u8] here)
-        R = P(1)
-        RL = Len(R)
-        t = boolean
-        rows = [Row([eq(a, RL)], t(True), name="pos==len"),
-                Row([lt(RL, a)], t(False), name="pos>len"),
-                Row([lt(a, RL), isb(a, R)], t(True), name="pos<len, boundary byte"),
-                Row([lt(a, RL), nb(a, R)], t(False), name="pos<len, continuation byte")]
-        decide(ctx, "TAB-PRED", prog, KS + "__is_char_boundary_bytes", rows, {bclass(a, R)})
-        rows = [Row([le(RL, a)], t(True), name="pos>=len"),
-                Row([lt(a, RL), isb(a, R)], t(True), name="pos<len, boundary byte"),
-                Row([lt(a, RL), nb(a, R)], t(False), name="pos<len, continuation byte")]
-        decide(ctx, "TAB-PRED", prog, KS + "__is_char_boundary_forgiving", rows, {bclass(a, R)})
-        rows = [Row([eq(a, LEN)], t(True), name="pos==len"),
-                Row([lt(LEN, a)], t(False), name="pos>len"),
-                Row([lt(a, LEN), isb(a)], t(True), name="pos<len, boundary byte"),
-                Row([lt(a, LEN), nb(a)], t(False), name="pos<len, continuation byte")]
-        decide(ctx, "TAB-PRED", prog, KS + "is_char_boundary", rows, {bclass(a)})
+        pred_tables(ctx, prog)
 
         # fallible getters == str::get
         K = "konst::string::"
